@@ -25,7 +25,12 @@ def text_for(name, g):
     if name == "big_texts":
         return f"{g}:" + chr(0x61 + g % 26) * (70000 + 4099 * (g % 5))
     pool = [f"text {g}", f"  lead and trail {g}  ", f"žluťoučký kůň {g} \U0001F40D", f"tab\there {g}",
-            "x" * (g % 7), f"{g}", f"0", f"a,b;\"c\" {g}", f"é" * (3 + g % 50) + str(g)]
+            "x" * (g % 7), f"{g}", f"0", f"a,b;\"c\" {g}", f"é" * (3 + g % 50) + str(g),
+            # characters that str.splitlines() treats as line boundaries but a text file does not, inside and at the ends
+            f"page one\x0cpage two {g}", f"\x0bvt first {g}", f"fs\x1cgs\x1drs\x1e {g}", f"nel\x85 ls\u2028 ps\u2029 {g}",
+            f"{g} ends with a separator\u2028"]
+    # not generated: texts containing '\r' — the read handle is opened with universal newlines, so '\r' ends a line for the
+    # storage; such a text is not a "single-line text" for it (DESIGN.md §2, observed but outside the property as stated)
     return pool[g % len(pool)] or f"e{g}"
 
 
